@@ -1420,7 +1420,6 @@ func loopFree(fn *ssa.Function) bool {
 	return true
 }
 
-
 // staleIf: a written (not inferred) clause that cannot be evaluated because it names something the code no longer has
 // (a renamed or removed local): the contract is stale, which is not the same as violated
 func (q *Query) staleIf(c Clause, err error, where string) {
